@@ -1,6 +1,7 @@
 //! vh — conformance harness binding the TLA+ specifications in /verif/spec to the real anydb code.
 //! Subcommands (one per conformance direction / subsystem); each reads ndjson emitted by TLC
 //! (behaviours) or writes ndjson traces, and prints a JSON summary on stdout.
+mod crashreplay;
 mod importreplay;
 mod rawreplay;
 mod reads;
@@ -19,6 +20,7 @@ fn main() {
         "vecreplay" => vecreplay::main(&args[2..]),
         "rawreplay" => rawreplay::main(&args[2..]),
         "importreplay" => importreplay::main(&args[2..]),
+        "crashreplay" => crashreplay::main(&args[2..]),
         other => {
             eprintln!("unknown subcommand {other}");
             2
